@@ -10,6 +10,9 @@ import re
 from lin import Lin, INF, ub, lb, entails
 
 USIZE_HI = (1 << 63)
+# an allocation request of more than this many elements must be bounded by the input length (A6): 65535 entries of a
+# 100+ byte record type driven by two header bytes is exactly the amplification C01 forbids
+ALLOC_CONST = 1024
 
 
 def int_range(t):
@@ -883,19 +886,20 @@ class Analyzer(Analysis):
                 if x is None:
                     o.detail = "requested capacity not tracked"
                 else:
-                    if ub(x, self.iv) <= 65535:
+                    if ub(x, self.iv) <= ALLOC_CONST:
                         o.ok = True
-                        o.why = "capacity <= %d by type/interval" % ub(x, self.iv)
+                        o.why = "capacity <= %d elements by type/interval" % ub(x, self.iv)
                     else:
-                        # or bounded by the length of a parameter slice plus a constant
+                        # or bounded by the length of a parameter slice plus a small constant
                         okb = False
                         for k2, v2 in st.store.items():
-                            if k2.startswith("len:_") and v2[0] == "lin" and self.holds(st, x - v2[1] - 65535):
+                            if k2.startswith("len:_") and v2[0] == "lin" and self.holds(st, x - v2[1] - ALLOC_CONST):
                                 okb = True
-                                o.why = "capacity <= %s + 65535" % k2[4:]
+                                o.why = "capacity <= len(%s) + %d" % (k2[4:], ALLOC_CONST)
                         o.ok = okb
                         if not okb:
-                            o.detail = "requested capacity %r has no bound by a constant <= 65535 or by the input length" % x
+                            o.detail = ("requested capacity %r (up to %s elements) is bounded neither by a constant <= %d nor by the "
+                                        "input length: a few input bytes can drive the allocation" % (x, ub(x, self.iv), ALLOC_CONST))
             elif rule in ("known_ok", "known_some"):
                 v = vals[0] if vals else None
                 o.unwrap_of = v
@@ -1018,8 +1022,19 @@ class Analyzer(Analysis):
                     st.facts.add(s - la)
                     st.facts.add(s - self.as_lin(vals[1]))
                     result = ("lin", s)
+                elif name.endswith("::saturating_sub") and len(vals) > 1 and la is not None and r is not None:
+                    s = self.sym("ssub%d" % bi, (0, r[1]))
+                    st.facts.add(s - la)          # a.saturating_sub(b) <= a
+                    result = ("lin", s)
                 elif r is not None:
                     result = ("lin", self.sym("conv%d" % bi, r))
+                handled = True
+            elif name in ("std::cmp::Ord::min", "std::cmp::min") and len(vals) == 2 and self.as_lin(vals[0]) is not None \
+                    and self.as_lin(vals[1]) is not None and dest_ty["k"] == "int":
+                s = self.sym("min%d" % bi, int_range(dest_ty))
+                st.facts.add(s - self.as_lin(vals[0]))
+                st.facts.add(s - self.as_lin(vals[1]))
+                result = ("lin", s)
                 handled = True
             elif name.endswith("::trailing_zeros") and vals:
                 la = self.as_lin(vals[0])
